@@ -57,7 +57,13 @@ func (x *Exec) evalCall(st *State, e *ast.CallExpr) []*Value {
 	}
 	// callback contract on a func-typed parameter?
 	if id, ok := unparen(e.Fun).(*ast.Ident); ok {
-		if c := x.eng.cf.Contracts[x.frame().qual]; c != nil {
+		c := x.eng.cf.Contracts[x.frame().qual]
+		if c == nil || c.Callbacks[id.Name] == nil {
+			// inside a function literal of the function under verification:
+			// its func-typed parameters are still those of the enclosing function
+			c = x.eng.cf.Contracts[x.qual]
+		}
+		if c != nil {
 			if cb := c.Callbacks[id.Name]; cb != nil {
 				if len(cb.OneOf) > 0 {
 					return x.applyOneOf(st, cb, sig, args, e)
